@@ -42,8 +42,7 @@ Definition c02_requests_intact : Prop :=
                              | None => []
                              end) (header_ids tr), t).
 
-(* (2') the same for requests whose field names are made of letters, digits and '-' (for which
-   ToLower's `b | 0x20` is lower-casing) *)
+(* (2') the same for requests whose field names are made of letters, digits and '-' *)
 Definition plain_name (k : bytes) : bool :=
   forallb (fun c => ((48 <=? c) && (c <=? 57)) || ((65 <=? c) && (c <=? 90)) || ((97 <=? c) && (c <=? 122)) || (c =? 45)) k.
 Definition plain_request (rq : crequest) : bool := forallb (fun kv => plain_name (fst kv)) (cq_fields rq).
@@ -206,14 +205,13 @@ Example c02_ex_requests :
   = [request_fields ex_get; request_fields (ex_post (CBuf [1; 2; 3]))].
 Proof. vm_compute. reflexivity. Qed.
 
-(* statement (2) is false of the model as the code stands: ToLower ORs 0x20 into every byte, so
-   a field name with '_' (0x5f) goes out with 0x7f in its place *)
+(* a field name with '_' goes out as it is (ToLower used to OR 0x20 into every byte: 0x5f -> 0x7f) *)
 Definition ex_get_underscore : crequest :=
-  mkCReq [104] [71; 69; 84] [47] [104; 116; 116; 112; 115] [] [([120; 95; 105; 100], [49])] (CBuf []).   (* x_id: 1 *)
-Example c02_underscore_name_corrupted :
+  mkCReq [104] [71; 69; 84] [47] [104; 116; 116; 112; 115] [] [([88; 95; 105; 100], [49])] (CBuf []).   (* X_id: 1 *)
+Example c02_ex_underscore_name :
   match spec_decode_blocks (dtable_init 4096) (header_blocks (cli_tr ex_cfg [] [CEvSubmit 0 ex_get_underscore true; CEvWLIn])) with
   | Some ([fs], _) => (last (map (fun f => fst f) fs) ([], []), last (request_fields ex_get_underscore) ([], []))
   | _ => (([], []), ([], []))
   end
-  = (([120; 127; 105; 100], [49]), ([120; 95; 105; 100], [49])).
+  = (([120; 95; 105; 100], [49]), ([120; 95; 105; 100], [49])).
 Proof. vm_compute. reflexivity. Qed.
